@@ -61,6 +61,12 @@ def generate(rng, cfg, guards):
     while len(ops) < n:
         k = rng.wpick(pairs)
         ops.append(['restart'] if k == 'restart' else W.gen_common(rng, k))
+    if not long_run and rng.chance(0.35):
+        # back, forth and back again over several commands: redone commands meet objects that earlier redone commands re-created
+        depth = rng.randrange(2, 5)
+        at = rng.randrange(len(ops) // 2, len(ops) + 1)
+        ops[at:at] = [W.gen_common(rng, 'do_apply') for _ in range(rng.randrange(0, 3))] + \
+            [['undo']] * depth + [['redo']] * depth + [['undo']] * depth
     if long_run:
         ops += [['undo']] * rng.randrange(45, 56)
     return {'knobs': {'guards': list(guards), 'prop': PROP}, 'ops': ops}
